@@ -36,6 +36,65 @@ PKG_OF_PREFIX = {"magic-numbers": "magic_numbers", "improper-logging": "print_st
                  "collection-pipeline": "collection_pipeline", "stateless-class": "stateless_class"}
 NO_INLINE = {"lbyl", "cqs", "unwrap_abuse", "clone_abuse", "blocking_async"}
 OWN_LINE = {"method_property"}
+# linters exercised at the observable level only (no linter-level pattern stream): the two cross-file linters and file-header
+XPKG = {"dry": "dry", "stringly-typed": "stringly_typed", "file-header": "file_header"}
+FH_MISSING_MSG = "Missing mandatory field: docstring"   # Gen.fh_missing_field: the violation that bypasses file-header's violation filter
+HEADER_LINE = {"py": '"""Purpose: demo module for the suppression check."""', "ts": "/** Purpose: demo module for the suppression check. */"}
+EXTRA_KEYS = {"file_header_missing": "missing_header_unfiltered[file_header]"}
+
+
+def pkg_of(v):
+    """linter package (the key of Actual.pipeline_of) of a reported violation [rule id, line, column, message]"""
+    p = prefix_of(v[0])
+    if p == "file-header":
+        return "file_header_missing" if len(v) > 3 and v[3] == FH_MISSING_MSG else "file_header"
+    return PKG_OF_PREFIX.get(p) or XPKG[p]
+
+
+def observed(rule_id):
+    return prefix_of(rule_id) in PKG_OF_PREFIX or prefix_of(rule_id) in XPKG
+
+
+def pipeline_keys(pkg):
+    if pkg in NO_INLINE:
+        return [f"no_inline_support[{pkg}]"]
+    if pkg in OWN_LINE:
+        return [f"own_line_check_only[{pkg}]"]
+    if pkg in EXTRA_KEYS:
+        return [EXTRA_KEYS[pkg]]
+    return None
+
+
+def place_queries(afile, moved):
+    """moved: [rule, new line or None, column, message] per violation of the base file.  file-header reports on line 1 whatever
+    stands there: it is queried on line 1 when that is a code line, at the first code line when line 1 is a file-level directive and
+    the violation is the `no header` one (whose suppression does not depend on the line), and left out otherwise (a violation on a
+    directive-only line is outside the domain).  Returns ([rule, query line, column, message, reported line] ..., drop_fh)"""
+    first_code = next((k + 1 for k, l in enumerate(afile) if is_code(l)), None)
+    out, drop = [], False
+    for v in moved:
+        if prefix_of(v[0]) == "file-header":
+            if afile and is_code(afile[0]):
+                out.append([v[0], 1, v[2], v[3], 1])
+            elif afile and afile[0][0] == "File" and pkg_of(v) == "file_header_missing" and first_code:
+                out.append([v[0], first_code, v[2], v[3], 1])
+            else:
+                drop = True
+        else:
+            out.append([v[0], v[1], v[2], v[3], v[1]])
+    return out, drop
+
+
+def match_after(placed, v1, drop_fh):
+    """which of the placed violations are still reported (rule, reported line, column); returns (kept flags, unexplained new ones)"""
+    remaining = [w for w in v1 if not (drop_fh and prefix_of(w[0]) == "file-header")]
+    kept = []
+    for sv in placed:   # message texts may quote the source line (which now carries the comment): match on rule, line, column
+        hit = next((w for w in remaining if w[0] == sv[0] and w[1] == sv[4] and w[2] == sv[2]), None)
+        if hit is not None:
+            remaining.remove(hit)
+        kept.append(hit is not None)
+    return kept, remaining
 
 
 # ------------------------------------------------------------------ Coq encoding (fast to parse: no unary numbers)
@@ -404,7 +463,66 @@ def base_file(r, lang):
             lines.append("\x0c")   # page break: white space for Python, a line boundary for str.splitlines
     if r.random() < 0.3:   # push code beyond the header window
         lines = [""] * r.randint(8, 12) + lines
+    if lang in HEADER_LINE and r.random() < 0.25:   # a one-line file header on line 1: file-header then reports missing fields (filtered path)
+        lines = [HEADER_LINE[lang]] + lines
     return lines
+
+
+# cross-file stream: file A (generated, carries the directive) and a fixed partner B that repeats A's status chain (stringly-typed) and
+# exactly four code lines of A's accumulation loop (dry, min_duplicate_lines = 4: one window, so one violation, wherever comments go)
+X_BLOCKS = {
+    "py": [["def handle_status{n}(status):", "    if status == \"active\":", "        return 1", "    elif status == \"pending\":", "        return 2",
+            "    elif status == \"closed\":", "        return 3", "    return 0"],
+           ["def proc_a{n}(items, limit):", "    total = 0", "    for item in items:", "        if item.price > limit:",
+            "            total += item.price * item.count", "    return total"]],
+    "ts": [["function handleStatus{n}(status: string): number {", "  if (status === \"active\") {", "    return 1;", "  } else if (status === \"pending\") {",
+            "    return 2;", "  } else if (status === \"closed\") {", "    return 3;", "  }", "  return 0;", "}"],
+           ["function procA{n}(items: Item[], limit: number): number {", "  let total = 0;", "  for (const item of items) {", "    if (item.price > limit) {",
+            "      total += item.price * item.count;", "    }", "  }", "  return total;", "}"]],
+}
+X_PARTNER = {
+    "py": "import sys\n\n\ndef check_status(status):\n    if status == \"active\":\n        return 10\n    elif status == \"pending\":\n        return 20\n"
+          "    elif status == \"closed\":\n        return 30\n    return 0\n\n\ndef other_b(things, cap):\n    count = len(things)\n    total = 0\n"
+          "    for item in items:\n        if item.price > limit:\n            total += item.price * item.count\n    print(total, count)\n",
+    "ts": "import { y } from './y';\n\nfunction checkStatus(status: string): number {\n  if (status === \"active\") {\n    return 10;\n"
+          "  } else if (status === \"pending\") {\n    return 20;\n  } else if (status === \"closed\") {\n    return 30;\n  }\n  return 0;\n}\n\n"
+          "function otherB(things: Item[], cap: number): void {\n  const count = things.length;\n  let total = 0;\n  for (const item of items) {\n"
+          "    if (item.price > limit) {\n      total += item.price * item.count;\n    }\n  }\n  console.log(total, count);\n}\n",
+}
+X_CONFIG = {"dry": {"enabled": True, "min_duplicate_lines": 4}}
+
+
+def xfile_base(r, lang):
+    blocks, _, _, head = LANGS[lang]
+    chosen = [list(b) for b in X_BLOCKS[lang]] + [blocks[bi] for bi in r.sample(range(len(blocks)), r.randint(0, 2))]
+    r.shuffle(chosen)
+    lines = list(head) if r.random() < 0.7 else []
+    for n, b in enumerate(chosen):
+        for l in b:
+            lines.extend(l.replace("{n}", str(n)).split("\n"))
+        lines.extend([""] * r.choice([1, 2]))
+    if r.random() < 0.25:
+        lines = [""] * r.randint(8, 12) + lines
+    if r.random() < 0.2:
+        lines = [HEADER_LINE[lang]] + lines
+    return lines
+
+
+def lint_pair(text: str, ext: str):
+    """file A next to its partner B, linted together by a fresh Orchestrator (lint_files: the cross-file linters report in finalize);
+    returns the violations reported for A"""
+    ensure_repo_on_path()
+    from src.orchestrator.core import Orchestrator
+    from harness.common import install_failure_tap
+    install_failure_tap()
+    lang = next(k for k, v in LANGS.items() if v[1] == ext)
+    with scratch_dir("tv-c04-x-") as d:
+        fa, fb = d / ("case_a" + ext), d / ("partner_b" + ext)
+        fa.write_text(text, encoding="utf-8")
+        fb.write_text(X_PARTNER[lang], encoding="utf-8")
+        vs = Orchestrator(project_root=d, config=json.loads(json.dumps(X_CONFIG))).lint_files([fa, fb])
+        out = sorted([v.rule_id, v.line, v.column, v.message] for v in vs if observed(v.rule_id) and Path(v.file_path).name == fa.name)
+        return out, drain_failures()
 
 
 _orch = None
@@ -420,16 +538,19 @@ def lint_text(text: str, ext: str):
             _orch = make_orchestrator(d, {})
         _orch.project_root = d
         vs = _orch.lint_file(f)
-        out = sorted([v.rule_id, v.line, v.column, v.message] for v in vs if prefix_of(v.rule_id) in PKG_OF_PREFIX)
+        out = sorted([v.rule_id, v.line, v.column, v.message] for v in vs if observed(v.rule_id))
         return out, drain_failures()
 
 
-def obs_plan(r, lang, base, v0):
+def obs_plan(r, lang, base, v0, prefer=()):
     """choose directives to insert; returns alines with back-pointers: list of (aline, orig base index or None)"""
     _, _, st, _ = LANGS[lang]
     a = [(["Plain", l], i) for i, l in enumerate(base)]
-    rare = [v for v in v0 if PKG_OF_PREFIX[prefix_of(v[0])] in ("cqs", "lbyl", "clone_abuse", "srp", "performance", "collection_pipeline", "stateless_class")]
-    target = r.choice(rare) if rare and r.random() < 0.3 else r.choice(v0)   # keep the linters with few violations per file covered
+    rare = [v for v in v0 if pkg_of(v) in ("cqs", "lbyl", "clone_abuse", "srp", "performance", "collection_pipeline", "stateless_class",
+                                           "dry", "stringly_typed", "file_header", "file_header_missing")]
+    if prefer:   # the cross-file stream is there for the cross-file linters
+        rare = [v for v in v0 if pkg_of(v) in prefer] or rare
+    target = r.choice(rare) if rare and r.random() < (0.7 if prefer else 0.3) else r.choice(v0)   # keep the linters with few violations per file covered
     trule, tline = target[0], target[1]
     others = [x for x in RULES if prefix_of(x) != prefix_of(trule)]
 
@@ -502,7 +623,12 @@ def obs_cases(seed, n):
     for i in range(max(4, n // 12)):   # same path linted twice by one long-lived Orchestrator, header directive edited in between
         r = rng_for(seed, PROP, "obs2", i)
         lang = r.choice(["py", "py", "ts", "rs"])
-        cases.append({"i": f"two-state:{i}", "lang": lang, "base": base_file(r, lang), "seed": seed, "two_state": True})
+        cases.append({"i": f"two-state:{i}", "lang": lang, "base": [l for l in base_file(r, lang) if l not in HEADER_LINE.values()], "seed": seed,
+                      "two_state": True})
+    for i in range(max(6, n // 5)):   # the cross-file linters: dry and stringly-typed report on file A because of its partner file B
+        r = rng_for(seed, PROP, "obsx", i)
+        lang = r.choice(["py", "py", "ts"])
+        cases.append({"i": f"xfile:{i}", "lang": lang, "base": xfile_base(r, lang), "seed": seed, "xfile": True})
     return cases
 
 
@@ -532,20 +658,16 @@ def run_obs_two_state(case):
         outs = []
         for head in (first, second):
             f.write_text(render([head] + body), encoding="utf-8")
-            outs.append(sorted([v.rule_id, v.line, v.column, v.message] for v in _orch.lint_file(f) if prefix_of(v.rule_id) in PKG_OF_PREFIX))
+            outs.append(sorted([v.rule_id, v.line, v.column, v.message] for v in _orch.lint_file(f) if observed(v.rule_id)))
         fails = drain_failures()
     afile = [second] + body
     v1 = outs[1]
-    remaining, kept = list(v1), []
-    for sv in v0:
-        hit = next((w for w in remaining if w[:3] == sv[:3]), None)
-        if hit is not None:
-            remaining.remove(hit)
-        kept.append(hit is not None)
+    placed, drop_fh = place_queries(afile, v0)
+    kept, remaining = match_after(placed, v1, drop_fh)
     return {"kind": "obs", "i": case["i"], "lang": lang, "form": "two_state_" + mode, "how": "named", "target": target,
-            "afile": afile, "content": render(afile), "queries": [(sv[1], sv[0]) for sv in v0],
-            "pipes": [f'(pipeline_of {coq.coq_string(PKG_OF_PREFIX[prefix_of(sv[0])])} {coq.coq_string(lang)})' for sv in v0],
-            "pkgs": [PKG_OF_PREFIX[prefix_of(sv[0])] for sv in v0],
+            "afile": afile, "content": render(afile), "queries": [(sv[1], sv[0]) for sv in placed],
+            "pipes": [f'(pipeline_of {coq.coq_string(pkg_of(sv))} {coq.coq_string(lang)})' for sv in placed],
+            "pkgs": [pkg_of(sv) for sv in placed],
             "impl": [not k for k in kept], "new_violations": remaining, "failures": fails0 + fails, "v0": v0, "v1": v1, "base": base, "via": "api",
             "obs_case": {"i": case["i"], "lang": lang, "base": base, "seed": case["seed"], "two_state": True},
             "first_state": render([first] + body)}
@@ -555,39 +677,62 @@ def run_obs(case):
     """before/after on the implementation; returns the judged-case payload or a skip reason"""
     if case.get("two_state"):
         return run_obs_two_state(case)
+    if case.get("witness"):
+        return run_obs_witness(case)
     lang, base = case["lang"], case["base"]
     ext = LANGS[lang][1]
+    lint = lint_pair if case.get("xfile") else lint_text
     r = rng_for(case["seed"], PROP, "obs-plan", case["i"])
-    v0, fails0 = lint_text("".join(l + "\n" for l in base), ext)
+    v0, fails0 = lint("".join(l + "\n" for l in base), ext)
+    if case.get("xfile") and sorted(pkg_of(v) for v in v0 if pkg_of(v) in ("dry", "stringly_typed")).count("dry") != 1:
+        return {"skip": "cross-file base without exactly one dry violation (generator)", **case}
     if not v0:
         return {"skip": "base file has no violation", **case}
     plan = None
     for _ in range(6):
-        plan = obs_plan(r, lang, base, v0)
+        plan = obs_plan(r, lang, base, v0, prefer=("dry", "stringly_typed") if case.get("xfile") else ())
         if plan:
             break
     if not plan:
         return {"skip": "no placement possible", **case}
-    al = plan["alines"]
+    return finish_obs(case, plan["alines"], v0, fails0, plan["form"], plan["how"], plan["target"], lint)
+
+
+def finish_obs(case, al, v0, fails0, form, how, target, lint):
+    """lint the file with the directives in place and pair every violation of the base file with its fate"""
+    lang, base = case["lang"], case["base"]
+    ext = LANGS[lang][1]
     afile = [x for x, _ in al]
     newline = {o: k + 1 for k, (_, o) in enumerate(al) if o is not None}
     content = render(afile)
-    v1, fails1 = lint_text(content, ext)
-    shifted = [[v[0], newline[v[1] - 1], v[2], v[3]] for v in v0]
-    remaining = list(v1)
-    kept = []
-    for sv in shifted:   # message texts may quote the source line (which now carries the comment): match on rule, line, column
-        hit = next((w for w in remaining if w[:3] == sv[:3]), None)
-        if hit is not None:
-            remaining.remove(hit)
-        kept.append(hit is not None)
-    return {"kind": "obs", "i": case["i"], "lang": lang, "form": plan["form"], "how": plan["how"], "target": plan["target"],
+    v1, fails1 = lint(content, ext)
+    shifted, drop_fh = place_queries(afile, [[v[0], newline[v[1] - 1], v[2], v[3]] for v in v0])
+    kept, remaining = match_after(shifted, v1, drop_fh)
+    return {"kind": "obs", "i": case["i"], "lang": lang, "form": form, "how": how, "target": target,
             "afile": afile, "content": content, "queries": [(sv[1], sv[0]) for sv in shifted],
-            "pipes": [f'(pipeline_of {coq.coq_string(PKG_OF_PREFIX[prefix_of(sv[0])])} {coq.coq_string(lang)})' for sv in shifted],
-            "pkgs": [PKG_OF_PREFIX[prefix_of(sv[0])] for sv in shifted],
+            "pipes": [f'(pipeline_of {coq.coq_string(pkg_of(sv))} {coq.coq_string(lang)})' for sv in shifted],
+            "pkgs": [pkg_of(sv) for sv in shifted],
             "impl": [not k for k in kept], "new_violations": remaining, "failures": fails0 + fails1, "v0": v0, "v1": v1, "base": base,
             "via": "cli" if isinstance(case["i"], int) and case["i"] % 18 == 0 else "api",
-            "obs_case": {"i": case["i"], "lang": lang, "base": base, "seed": case["seed"]}}
+            "obs_case": {k: case[k] for k in ("i", "lang", "base", "seed", "xfile", "witness") if k in case}}
+
+
+def run_obs_witness(case):
+    """a fixed abstract file (corpus/C04/obs_*.json): the base file is the file without its directives"""
+    afile = case["witness"]
+    al, base = [], []
+    for l in afile:
+        if is_code(l):
+            al.append((l, len(base)))
+            base.append(l[1])
+        else:
+            al.append((l, None))
+    case = dict(case, base=base)
+    lint = lint_pair if case.get("xfile") else lint_text
+    v0, fails0 = lint("".join(x + "\n" for x in base), LANGS[case["lang"]][1])
+    if not v0:
+        return {"skip": "witness base file has no violation", **case}
+    return finish_obs(case, al, v0, fails0, "witness", "named", v0[0], lint)
 
 
 # ------------------------------------------------------------------ file-pattern level (validated only: fnmatch is an oracle)
@@ -703,7 +848,7 @@ def decide_patterns(chk, res):
 
 def run_cli_pair(case):
     """the observe_at of the property: `thailint <linter> --format json` before and after, for the linter of the target violation"""
-    pkg = PKG_OF_PREFIX[prefix_of(case["target"][0])]
+    pkg = PKG_OF_PREFIX.get(prefix_of(case["target"][0]))   # the linters of the pattern table; the others are exercised in process only
     cmd = CLI_CMD.get(pkg)
     if not cmd:
         return None
@@ -832,7 +977,7 @@ def coq_judge_line(case, cands):
 
 _TH = None   # theories directory used for evaluation (None: the live development)
 MODEL_FILES = ["Lib/Base.v", "Lib/GenTypes.v", "Gen/IgnoreGen.v", "Model/PyStr.v", "Model/Ignore.v", "Model/IgnoreSpec.v", "Actual/IgnoreActual.v",
-               "Model/IgnoreRun.v", "Gen/CollectGen.v", "Model/CollectStr.v", "Model/Glob.v", "Model/Collect.v", "Model/CollectSpec.v", "Model/IgnorePat.v",
+               "Model/IgnoreRun.v", "Model/CollectStr.v", "Gen/CollectGen.v", "Model/Glob.v", "Model/Collect.v", "Model/CollectSpec.v", "Model/IgnorePat.v",
                "Actual/IgnorePatActual.v"]
 
 
@@ -861,6 +1006,9 @@ def eval_shards_at(th, workdir: Path, header: str, shards):
     return res
 
 
+_SNAP_ERROR = ""
+
+
 def build_snapshot(sd: Path):
     """a private copy of the model compiled against the last validated generated layer; None when it cannot be built"""
     import shutil
@@ -875,6 +1023,8 @@ def build_snapshot(sd: Path):
     for rel in MODEL_FILES:
         pr = subprocess.run(["timeout", "300", "coqc", "-Q", str(th), "TL", "-w", "-notation-overridden", str(th / rel)], capture_output=True, text=True, cwd=str(sd))
         if pr.returncode != 0:
+            global _SNAP_ERROR
+            _SNAP_ERROR = f"{rel}: {pr.stderr[-300:]}"
             return None
     return th
 
@@ -950,13 +1100,9 @@ def decide(chk, case, ver, agree, full_vector, note=""):
         if case["kind"] == "obs":
             info.update({"lang": case["lang"], "form": case["form"], "target": case["target"], "violations_before": case["v0"], "violations_after": case["v1"],
                          "obs_case": case["obs_case"], "first_state": case.get("first_state")})
-        keys = []
         pkg = case.get("pkgs", [None] * len(rows))[k]
-        if pkg in NO_INLINE:
-            keys = [f"no_inline_support[{pkg}]"]
-        elif pkg in OWN_LINE:
-            keys = [f"own_line_check_only[{pkg}]"]
-        else:
+        keys = pipeline_keys(pkg)
+        if keys is None:
             # flags whose single removal changes the model's answer on this query; when several listed defects overlap on the
             # input (no single removal changes the answer): every flag whose defect class contains the input
             keys = [FLAGS[f] for f in range(7) if not cand[C_OFF0 + f]] or [FLAGS[f] for f in range(7) if inclass[f]]
@@ -1038,8 +1184,7 @@ def evaluate(chk, structured, raws, leafs, p2_cap, th=None, record=True, note=""
             for k, row in enumerate(first[j][1:]):
                 if not row[0]:
                     pkg = case.get("pkgs", [None] * len(case["queries"]))[k]
-                    keys = ([f"no_inline_support[{pkg}]"] if pkg in NO_INLINE else [f"own_line_check_only[{pkg}]"] if pkg in OWN_LINE
-                            else [FLAGS[f] for f in range(7) if row[3 + f]])
+                    keys = pipeline_keys(pkg) or [FLAGS[f] for f in range(7) if row[3 + f]]
                     for key in keys:
                         chk.known_finding(key, {"line": case["queries"][k][0], "rule_id": case["queries"][k][1], "content": case["content"],
                                                 "level": case["kind"], "attributed_by": "defect class"})
@@ -1103,15 +1248,21 @@ def run(tier: str, seed: int, replay: str | None = None) -> int:
                 "damage (keyword case, prose, design-lint, control characters, cuts) queried at arbitrary lines, model-vs-implementation only. observable: "
                 ".py/.ts/.rs files assembled from snippets that trigger nesting, magic-numbers, print, srp, performance, method-property, lbyl, cqs, unwrap/clone/"
                 "blocking linters; one directive inserted on / before / around / far from a reported violation or at file level; violations before and after "
-                "compared (in-process Orchestrator; a few through the CLI). A case is non-trivial when at least one directive's scope contains a queried line "
+                "compared (in-process Orchestrator; a few through the CLI); file-header joins every .py/.ts file (its line-1 violations: `no header` for "
+                "most files, missing fields for files that start with a one-line header); a cross-file stream lints a generated file A together with a fixed "
+                "partner B (fresh Orchestrator, lint_files) so that dry (one 4-line window) and stringly-typed report on A, directives inserted into A. "
+                "A case is non-trivial when at least one directive's scope contains a queried line "
                 "or a reported violation; distinct = distinct (text, queries)")
     chk.trusted_base += [
         "Model/PyStr.v is a hand-written model of str.splitlines/lower/strip/split/in and of the two regex templates used by ignore.py; validated against CPython "
         "(leaf level) on valid UTF-8 without U+0130/U+0131/U+017F/U+212A (non-ASCII case mapping is not modelled); not proved about CPython",
         "the suppression pipeline of each linter (which rule classes call the shared parser, their own extra same-line checks) is a table in Actual/IgnoreActual.v "
-        "validated by the observable-level correspondence and by Gen.shared_parser_users; collection-pipeline, stateless-class, file-header, dry, stringly-typed, "
-        "file-placement and lazy-ignores are not exercised at the observable level",
-        "repository- and linter-level ignore patterns (fnmatch) are an oracle: validated on a few patterns only, not modelled",
+        "validated by the observable-level correspondence, by Gen.shared_parser_users and by the translator's shape checks of the linters' filter functions "
+        "(generic_extras, tl_extras, fh_extras); file-placement and lazy-ignores (exempted by the property text) are not exercised at the observable level; "
+        "dry's own `# dry: ignore-block / ignore-next` comments and file-header's custom `# thailint-ignore*` needles are modelled (file-header) or left to C03 "
+        "(dry) but never generated here",
+        "repository-level ignore patterns (fnmatch) are an oracle sampled on a few patterns (C14's subject); linter-level `ignore:` lists are modelled per "
+        "matcher kind (Model/IgnorePat.v on top of the fnmatch model of C14) and validated by the pattern stream, PurePath.match itself is not proved",
         "the analysers' own line numbering (ast / tree-sitter) is an oracle: observable level only",
     ]
     chk.build(["theories/Props/C04.v"], ["IgnoreGen"], known_v=["theories/Props/C04Known.v", "theories/Props/C04KnownPat.v"])
@@ -1144,8 +1295,10 @@ def run(tier: str, seed: int, replay: str | None = None) -> int:
         structured = corpus_cases() + two_state_cases(seed, (40 if quick else 400) * scale) + unit_cases(seed, n_unit)
         raws = raw_cases(seed, n_raw)
         leafs = leaf_strings(seed, n_leaf)
-        obs_in = obs_cases(seed, n_obs)
-        pat_in = obs_in[:: max(1, len(obs_in) // (6 if quick else 40))]
+        gen_obs = obs_cases(seed, n_obs)
+        obs_in = corpus_obs_cases(seed) + gen_obs
+        plain = [c for c in gen_obs if not c.get("xfile")]
+        pat_in = plain[:: max(1, len(plain) // (6 if quick else 40))]
         if quick:   # one file per language
             seen_l = {}
             for pc in pat_in:
@@ -1193,8 +1346,8 @@ def run(tier: str, seed: int, replay: str | None = None) -> int:
             continue
         chk.dist("via:cli")
         pkg = c.get("pkg")
-        api0 = sorted(v[:3] for v in o["v0"] if PKG_OF_PREFIX[prefix_of(v[0])] == pkg)
-        api1 = sorted(v[:3] for v in o["v1"] if PKG_OF_PREFIX[prefix_of(v[0])] == pkg)
+        api0 = sorted(v[:3] for v in o["v0"] if PKG_OF_PREFIX.get(prefix_of(v[0])) == pkg)
+        api1 = sorted(v[:3] for v in o["v1"] if PKG_OF_PREFIX.get(prefix_of(v[0])) == pkg)
         if "error" in c or c["before"] != api0 or c["after"] != api1:
             chk.violation({"reason": "the CLI (`thailint <linter> --format json`) does not report what the in-process run reports for the same file",
                            "cli": c, "api_before": api0, "api_after": api1, "content": o["content"], "lang": o["lang"]})
@@ -1232,7 +1385,7 @@ def run(tier: str, seed: int, replay: str | None = None) -> int:
         with scratch_dir("tv-c04-snap-") as sd:
             th = build_snapshot(sd)
             if th is None:
-                chk.notes.append("fallback search skipped: the snapshot of the generated layer could not be built")
+                chk.notes.append("fallback search skipped: the snapshot of the generated layer could not be built (" + _SNAP_ERROR + ")")
             else:
                 evaluate(chk, structured, raws, [], p2_cap, th=th, record=False,
                          note=" [judged with the last validated generated layer, coq/Gen.expected/IgnoreGen.v.txt]")
@@ -1245,12 +1398,24 @@ def run(tier: str, seed: int, replay: str | None = None) -> int:
     return chk.finish()
 
 
+def corpus_obs_cases(seed):
+    """observable-level witnesses (a whole file with its directives, run through the real linters)"""
+    out = []
+    for p in sorted((VERIF / "corpus" / PROP).glob("*.json")):
+        c = json.loads(p.read_text())
+        if c.get("kind") == "obs-witness":
+            out.append({"i": "corpus:" + p.stem, "lang": c["lang"], "seed": seed, "witness": c["afile"], **({"xfile": True} if c.get("xfile") else {})})
+    return out
+
+
 def corpus_cases():
     """refutation witnesses and minimised earlier failures; replayed first on every run"""
     out = []
     d = VERIF / "corpus" / PROP
     for p in sorted(d.glob("*.json")):
         c = json.loads(p.read_text())
+        if c.get("kind") == "obs-witness":
+            continue
         a = c["afile"]
         qs = [tuple(q) for q in c["queries"]]
         out.append({"kind": "unit", "i": "corpus:" + p.stem, "afile": a, "content": render(a), "queries": qs, "pipes": ["PShared"] * len(qs)})
